@@ -65,21 +65,22 @@ import (
 
 // Req is one case for the worker.
 type Req struct {
-	ID      string     `json:"id"`
-	Data    []byte     `json:"data,omitempty"` // explicit input bytes
-	Raw     bool       `json:"raw,omitempty"`  // Data is the input even when it is empty
-	Wiring  *Wiring    `json:"wiring,omitempty"`
-	Variant int        `json:"variant,omitempty"`
-	Family  *Family    `json:"family,omitempty"`
-	Pass    string     `json:"pass,omitempty"` // password of an encrypted seed
-	Pipe    *PipeCase  `json:"pipe,omitempty"`
-	Skip    []string   `json:"skip,omitempty"`  // calls not to make (they killed an earlier worker)
-	Only    string     `json:"only,omitempty"`  // confirmation runs: besides opening the file, make only this call
-	NoRetry bool       `json:"-"`               // parent side: do not go on with the case after a worker death
-	GraceMs int        `json:"grace,omitempty"` // goroutine grace period
-	Probe   bool       `json:"probe,omitempty"` // only the walker-specific probe call
-	Echo    bool       `json:"echo,omitempty"`  // return the input bytes with the done line
-	Calib   *CalibSpec `json:"calib,omitempty"`
+	ID       string     `json:"id"`
+	Data     []byte     `json:"data,omitempty"` // explicit input bytes
+	Raw      bool       `json:"raw,omitempty"`  // Data is the input even when it is empty
+	Wiring   *Wiring    `json:"wiring,omitempty"`
+	Variant  int        `json:"variant,omitempty"`
+	Family   *Family    `json:"family,omitempty"`
+	Pass     string     `json:"pass,omitempty"` // password of an encrypted seed
+	Pipe     *PipeCase  `json:"pipe,omitempty"`
+	Skip     []string   `json:"skip,omitempty"`     // calls not to make (they killed an earlier worker)
+	PageOnly bool       `json:"pageonly,omitempty"` // open once, then only what the page tree reaches (typed-number mutants)
+	Only     string     `json:"only,omitempty"`     // confirmation runs: besides opening the file, make only this call
+	NoRetry  bool       `json:"-"`                  // parent side: do not go on with the case after a worker death
+	GraceMs  int        `json:"grace,omitempty"`    // goroutine grace period
+	Probe    bool       `json:"probe,omitempty"`    // only the walker-specific probe call
+	Echo     bool       `json:"echo,omitempty"`     // return the input bytes with the done line
+	Calib    *CalibSpec `json:"calib,omitempty"`
 
 	info *caseInfo // parent side only
 }
@@ -110,15 +111,16 @@ type Rec struct {
 }
 
 type wk struct {
-	out    *bufio.Writer
-	id     string
-	data   []byte
-	objs   int
-	skip   map[string]bool
-	only   string
-	grace  time.Duration
-	sample []metrics.Sample
-	recs   int
+	out      *bufio.Writer
+	id       string
+	data     []byte
+	objs     int
+	skip     map[string]bool
+	only     string
+	pageOnly bool
+	grace    time.Duration
+	sample   []metrics.Sample
+	recs     int
 }
 
 func (k *wk) send(v any) {
@@ -174,9 +176,16 @@ func settle(g0 int, grace time.Duration) int {
 	return g
 }
 
+// errNoResult: a constructor returned neither a value nor an error - the
+// property says "either succeeds or returns an error".
+var errNoResult = errors.New("neither a result nor an error")
+
 func classify(err error) string {
 	if err == nil {
 		return "ok"
+	}
+	if err == errNoResult {
+		return "noresult"
 	}
 	var ae *pdf.AuthenticationError
 	if errors.As(err, &ae) {
@@ -308,6 +317,15 @@ func (k *wk) callEach(name string, n int, gets *int, each func(i int)) {
 // wanted reports whether a call is to be made in a run restricted to one call
 // (the calls that open the file are always made: the others need their result).
 func (k *wk) wanted(name string) bool {
+	if k.pageOnly {
+		switch name {
+		case "open/report", "open/stop", "get", "resolve", "decode", "seqscan", "seqread", "objwalk", "findpages":
+			return false
+		}
+		if strings.HasPrefix(name, "makereader/") || strings.HasPrefix(name, "seq/") {
+			return false
+		}
+	}
 	if k.only == "" || name == k.only {
 		return true
 	}
@@ -441,6 +459,9 @@ func (k *wk) walkFile(passwords []string) {
 		k.call("open/"+m.name, "", 1, nil, func() ([]string, error) {
 			var err error
 			r, err = pdf.NewReader(bytes.NewReader(data), int64(len(data)), &pdf.ReaderOptions{ErrorHandling: m.mode, Password: pw})
+			if r == nil && err == nil {
+				return nil, errNoResult
+			}
 			return nil, err
 		})
 		if r != nil {
@@ -480,6 +501,9 @@ func (k *wk) walkFile(passwords []string) {
 		k.call("makereader/"+m.name, "", 1, nil, func() ([]string, error) {
 			var err error
 			r, err = fi.MakeReader(&pdf.ReaderOptions{ErrorHandling: m.mode, Password: pw})
+			if r == nil && err == nil {
+				return nil, errNoResult
+			}
 			return nil, err
 		})
 		if r != nil && firstSeq == nil {
@@ -823,6 +847,7 @@ func WorkerMain() {
 			k.skip[s] = true
 		}
 		k.only = req.Only
+		k.pageOnly = req.PageOnly
 		k.grace = time.Duration(req.GraceMs) * time.Millisecond
 		if k.grace == 0 {
 			k.grace = time.Second
